@@ -1,7 +1,7 @@
 """C14 -- parallel_for never uses one state object concurrently."""
 from driver import Unit
 import extract as X
-import importlib.util, os
+import importlib.util, os, re
 def _load(n):
     sp = importlib.util.spec_from_file_location(n + 'mod', os.path.join(os.path.dirname(__file__), n + '.py'))
     m = importlib.util.module_from_spec(sp)
@@ -20,9 +20,9 @@ PF = 'dispenso/parallel_for.h'
 PS = 'dispenso/detail/par_for_static.h'
 
 
-def build(ctx):
+def static_pieces(ctx):
+    """parallel_for_staticImpl: scheduler index -> chunk index remap, caller chunk selection, the caller's own run; initStates"""
     r = ctx.repo
-    c48.skeleton_pieces(ctx)
     p = r.function(PF, r'void\s+initStates\s*\([^)]*\)')
     ctx.emit('initStates.body.inc', p, must_fire=['R12', 'LC'],
              subs=[('R12', r'states\.clear\(\);', 'states_size = 0;', 1),
@@ -33,8 +33,7 @@ def build(ctx):
                    ('R10', r'\}\s*$', '  return states_size;\n}', 1)])
     impl = r.function(PS, r'void\s+parallel_for_staticImpl\s*\([^)]*\)')
     sl = X.slice_between(impl, r'size_type\s+chunkIdx\s*=\s*static_cast<size_type>\(idx\);', r'return\s*\[it = stateIt, start, end, f\]')
-    import re as _re
-    aliases = _re.findall(r'auto\s+(\w+)\s*=\s*states\.begin\(\)\s*;', impl.text)
+    aliases = re.findall(r'auto\s+(\w+)\s*=\s*states\.begin\(\)\s*;', impl.text)
     begin_alias = '|'.join(a for a in aliases if a != 'stateIt') or 'states\\.begin\\(\\)'
     ctx.emit('psi_remap.slice.inc', sl, must_fire=['R2', 'R12'],
              subs=[('R13', r'auto\s+chunkBounds\s*=\s*chunkRange\(chunkIdx\);\s*IntegerT\s+start\s*=\s*chunkBounds\.first;\s*IntegerT\s+end\s*=\s*chunkBounds\.second;', '/* chunk bounds: C17 units */', 1),
@@ -44,6 +43,32 @@ def build(ctx):
                    ('R12', r'std::advance\(stateIt,\s*static_cast<ptrdiff_t>\(([^();]+)\)\);', r'size_type stateAdvance = ((size_type)(((ptrdiff_t)(\1))));', 1)])
     sl = X.slice_between(impl, r'size_type\s+callerChunk\s*=\s*numThreads\s*-\s*1;', r'size_type\s+numToSchedule\s*=')
     ctx.emit('psi_callerChunk.slice.inc', sl, must_fire=['R2'])
+    # the calling thread's own chunk (wait == true): which chunk bounds and which state object it uses
+    sl = X.slice_between(impl, r'auto\s+stateIt\s*=\s*[\w.()]+;\s*std::advance\(stateIt,\s*static_cast<ptrdiff_t>\(\w+\)\);\s*auto\s+callerBounds', r'\{\s*auto\s+recurseInfo')
+    ctx.emit('psi_callerRun.slice.inc', sl, must_fire=['R12', 'R13'],
+             subs=[('R12', r'auto\s+stateIt\s*=\s*[\w.()]+;', '/* stateIt = states.begin() */', 1),
+                   ('R12', r'std::advance\(stateIt,\s*static_cast<ptrdiff_t>\(([^();]+)\)\);', r'size_type stateAdvance = ((size_type)(((ptrdiff_t)(\1))));', 1),
+                   ('R13', r'auto\s+callerBounds\s*=\s*chunkRange\(([^();]+)\);', r'size_type callerBoundsArg = (\1);', 1)])
+
+
+def static_units(ctx, insts):
+    units = []
+    for t, uu, sg in insts:
+        d = c17.inst_defines(t, uu, sg)
+        bits = int(t.replace('uint', '').replace('int', '').replace('_t', ''))
+        d['IT_MAX'] = str((1 << (bits - (1 if sg else 0))) - 1) + ('u' if not sg else '')
+        common = dict(defines=d, inst=t, timeout=150, signed_wrap=True, nonprop_cls=['overflow', 'conversion'])
+        units.append(Unit('parallel_for_staticImpl.remap', 'intwp', 'specs/c14_states.c', 'psi_remap', expect=[r'postcondition\.4'], **common))
+        units.append(Unit('parallel_for_staticImpl.callerChunk', 'intwp', 'specs/c14_states.c', 'psi_callerChunk', expect=[r'postcondition\.1'], **common))
+        units.append(Unit('parallel_for_staticImpl.callerRun', 'intwp', 'specs/c14_states.c', 'psi_callerRun', expect=[r'postcondition\.1'], **common))
+        units.append(Unit('c14_static_states_distinct', 'intwp', 'specs/c14_states.c', 'c14_static_states_distinct', expect=[r'assertion\.2', r'precondition'], **common))
+        units.append(Unit('c12_static_chunks_cover', 'intwp', 'specs/c14_states.c', 'c12_static_chunks_cover', expect=[r'assertion\.2', r'precondition'], **common))
+    return units
+
+
+def build(ctx):
+    c48.skeleton_pieces(ctx)
+    static_pieces(ctx)
     units = []
     for t, uu, sg in ([c17.INSTS[4], c17.INSTS[7]] if ctx.tier == 'quick' else c17.INSTS):
         d = c17.inst_defines(t, uu, sg)
@@ -53,9 +78,6 @@ def build(ctx):
                           replace=['computeGranularity', 'adjustChunkSizing', 'ChunkedRange_calcChunkSize', 'G_staticImpl', 'G_adaptiveWaitDispatch', 'G_dynamicImpl', 'G_dynamicNoWaitDispatch'],
                           expect=[r'postcondition\.5', r'precondition'], flags=['--unwind', '9'],
                           replay=dict(prog='replay/c48_replay.cpp', args=lambda ce, u: ['skeleton', 'T=' + u.inst] + ['%s=%s' % (k, str(v).rstrip('ulUL')) for k, v in sorted(ce.items())])))
-        common = dict(defines=d, inst=t, timeout=150, signed_wrap=True, nonprop_cls=['overflow', 'conversion'])
-        units.append(Unit('parallel_for_staticImpl.remap', 'intwp', 'specs/c14_states.c', 'psi_remap', expect=[r'postcondition\.4'], **common))
-        units.append(Unit('parallel_for_staticImpl.callerChunk', 'intwp', 'specs/c14_states.c', 'psi_callerChunk', expect=[r'postcondition\.1'], **common))
-        units.append(Unit('c14_static_states_distinct', 'intwp', 'specs/c14_states.c', 'c14_static_states_distinct', expect=[r'assertion\.2', r'precondition'], **common))
+    units += static_units(ctx, [c17.INSTS[4], c17.INSTS[7]] if ctx.tier == 'quick' else c17.INSTS)
     units.append(Unit('initStates', 'intwp', 'specs/c14_states.c', 'initStates_size', defines=c17.inst_defines('int64_t', 'uint64_t', 1), expect=[r'postcondition\.3', r'loop_invariant_step', r'decreases'], timeout=120))
     return units
